@@ -349,7 +349,13 @@ class SymEx:
         self.havoc_loops = havoc_loops
         self.loops = find_loops(body) if havoc_loops else {}
         self._loops_of = {body.defp: self.loops}
-        self.inline = inline                  # callable(callee Body, Call) -> bool: execute the callee's body in place
+        # callable(callee Body, Call) -> bool: execute the callee's body in place. Default: private helpers whose name
+        # no rule mentions anywhere (so no rule can be matching on the call itself); `inline=False` switches it off.
+        if inline is None:
+            inline = unmentioned_private_helper
+        elif inline is False:
+            inline = None
+        self.inline = inline
         self.max_inline_depth = max_inline_depth
         self.bind = bind or {}
         self.max_visits = max_visits
@@ -475,7 +481,14 @@ class SymEx:
             vk = bb if st.fid == 0 else (st.fid, bb)
             if len(self.paths) > self.max_paths:
                 raise TooManyPaths(body.defp)
+            once = False
             if self.havoc_loops and bb in loops:
+                # a loop driven by an Option iterator runs at most once: executed concretely (no havoc, no generic iteration)
+                for l in loops[bb]['locals']:
+                    v_ = st.mem.get((self.loc(st, l), ()))
+                    if v_ is not None and v_[0] in ('optiter', 'optiter_done'):
+                        once = True
+            if self.havoc_loops and bb in loops and not once:
                 if st.visits[vk] >= 1:
                     # back edge: the generic iteration ends here (its events still count)
                     self.paths.append(Path(st, 'backedge', None))
@@ -587,6 +600,20 @@ class SymEx:
                         if p is not None and not p['p'] and body.local_ty(p['l']).startswith('&mut '):
                             st.havoc(('ptr', a), (), site)
                 val = ('call', name, args, site)
+                # an iterator over an Option yields at most once: `for x in opt.iter_mut()` is `if let Some(x) = opt.as_mut()`
+                lastn = name.split('::')[-1]
+                if 'option::Option' in name and lastn in ('iter_mut', 'iter') and len(args) == 1:
+                    val = ('optiter', 'as_mut' if lastn == 'iter_mut' else 'as_ref', args[0])
+                elif lastn == 'into_iter' and len(args) == 1 and args[0][0] == 'optiter':
+                    val = args[0]
+                elif lastn == 'next' and len(args) == 1 and args[0][0] == 'mref' and pre[0][0] in ('optiter', 'optiter_done'):
+                    it = pre[0]
+                    if it[0] == 'optiter':
+                        val = ('call', 'std::option::Option::<T>::' + it[1], (it[2],), site)
+                        st.write(args[0][1][0], args[0][1][1], ('optiter_done', it[2]))
+                    else:
+                        val = ('adt', 'std::option::Option', 'None', (), ())
+                        st.write(args[0][1][0], args[0][1][1], it)
                 if gen.endswith('ops::Try::branch') and len(args) == 1 and (t.get('dest_ty') or '').startswith('std::ops::ControlFlow<std::option::Option<'):
                     val = ('tryopt', args[0])
                 elif gen.endswith('FromResidual::from_residual') and len(args) == 1 and args[0] == ('residual_none',):
@@ -757,6 +784,35 @@ def private_helper(exclude=(), also=()):
             return True
         return cb.d.get('vis', 'pub') != 'pub' and nm not in exclude
     return pred
+
+
+_MENTIONED = None
+
+
+def mentioned_names():
+    """every identifier that occurs inside a string literal of any rule module: a function with such a name may be
+    matched on by name somewhere, so it is never inlined by default"""
+    global _MENTIONED
+    if _MENTIONED is None:
+        import os, glob, re as _re
+        here = os.path.dirname(os.path.abspath(__file__))
+        names = set()
+        for f in glob.glob(os.path.join(here, '*.py')) + glob.glob(os.path.join(here, 'props', '*.py')):
+            src = open(f).read()
+            for lit in _re.findall(r"'((?:[^'\\\n]|\\.)*)'|\"((?:[^\"\\\n]|\\.)*)\"", src):
+                for part in lit:
+                    names.update(_re.findall(r'[A-Za-z_][A-Za-z0-9_]*', part))
+        _MENTIONED = names
+    return _MENTIONED
+
+
+def unmentioned_private_helper(cb, call):
+    if cb.kind not in ('Fn', 'AssocFn'):
+        return False
+    if cb.d.get('vis', 'pub') == 'pub' or (cb.impl and cb.impl.get('trait')):
+        return False
+    nm = cb.name or cb.defp.split('::')[-1]
+    return nm not in mentioned_names()
 
 
 def paths_of(body, **kw):
